@@ -429,6 +429,25 @@ def paren_shapes(per_program=10):
         prog += 1
 
 
+# ------------------------------------------------------------------------------------------------ construct tags for signatures
+import re as _re
+KW_ENDIF_BRACE = _re.compile(rb'\b(do|else)\b[ \t]*(?://[^\n]*|/\*[^\n]*?\*/)?[ \t]*\r?\n(?:[ \t]*\r?\n)*[ \t]*#[ \t]*endif\b[^\n]*\n\s*\{')
+BODY_STARTS_WITH_DIRECTIVE = _re.compile(rb'(?:\)|\belse)[ \t]*(?://[^\n]*|/\*[^\n]*?\*/)?[ \t]*\r?\n(?:[ \t]*\r?\n)*[ \t]*#[ \t]*(?:if|ifdef|ifndef)\b')
+
+
+def construct_tags(src):
+    """tags for a failure signature: does the (minimised) program hold a conditional group that ends between `do` / `else` and the brace
+    of its block, or a statement body (no braces) that starts with a conditional directive?  Both are shapes uncrustify's statement
+    parser is known not to follow (ledger C01-K14, C04-K6)."""
+    tags = ''
+    m = KW_ENDIF_BRACE.search(src)
+    if m:
+        tags += ' kw-endif-brace:' + m.group(1).decode()
+    if BODY_STARTS_WITH_DIRECTIVE.search(src):
+        tags += ' body-starts-with-directive'
+    return tags
+
+
 # ------------------------------------------------------------------------------------------------ enumerated conditional groups
 def ifdef_shapes():
     """Small complete C programs enumerating conditional groups: opener (#if / #ifdef / #ifndef, plain or complex condition), with or
